@@ -245,6 +245,9 @@ func (rc *RunCtx) run(writeEvidence bool) int {
 		rc.writeEvidence(len(fresh), len(rc.Violations)-len(fresh))
 	}
 	if code == 0 {
+		if rc.Distinct["nontrivial"] > evals {
+			evals = rc.Distinct["nontrivial"] // judged cases (see writeEvidence)
+		}
 		fmt.Printf("OK property=%s tier=%s seed=%d evaluations=%d distinct=%d known_findings=%d wall=%.1fs\n",
 			rc.Prop.ID, rc.Tier, rc.Seed, evals, rc.Distinct["nontrivial"], len(known), time.Since(rc.Start).Seconds())
 	}
